@@ -806,7 +806,14 @@ def _norm(it, ctx, a, k):
 
 @op("torch.addmm")
 def _addmm(it, ctx, a, k):
-    return it.binop(ctx, "+", a[0], E.matmul(ctx, a[1], a[2]))
+    """beta * input + alpha * (mat1 @ mat2)"""
+    prod = E.matmul(ctx, a[1], a[2])
+    inp = a[0]
+    if k.get("alpha") is not None:
+        prod = it.binop(ctx, "*", prod, k["alpha"])
+    if k.get("beta") is not None:
+        inp = it.binop(ctx, "*", inp, k["beta"])
+    return it.binop(ctx, "+", inp, prod)
 
 
 @op("torch.promote_types")
